@@ -22,6 +22,7 @@ type pipe struct {
 	werr    error
 	werr1   bool // fail exactly the next write
 	stuck   bool
+	onWrite func() // one-shot: runs inside the next accepted Write, after the envelope is queued and logged
 	cap     int // > 0: a Write blocks while cap envelopes are queued unread (back-pressure, like an unbuffered channel or a full socket)
 	wake    chan struct{}
 	conn    int
@@ -95,6 +96,10 @@ func (p *pipe) Write(ctx context.Context, r *goat.Rpc) error {
 				e := envEv(p.wEv, p.conn, cp)
 				e.N = p.nW
 				tr.emit(e)
+			}
+			if f := p.onWrite; f != nil {
+				p.onWrite = nil
+				f()
 			}
 			p.broadcastLocked()
 			p.mu.Unlock()
